@@ -503,6 +503,24 @@ def get(P):
         P._names = n
         common.CMP_ALIASES.clear()
         common.CMP_ALIASES.update(n.cmp_aliases())
+        # functions the rules anchor on by role are never inlined into provenance
+        roles_ = set()
+        for attr in ("funds_check", "transfer_ctor", "info_to_raw", "info_to_normal", "pair_to_normal", "asset_to_raw", "asset_to_normal", "raw_as_bytes",
+                     "query_pools", "query_pool", "query_decimals", "native_denom", "q_token_info", "q_token_balance", "q_balance", "q_all_balances",
+                     "q_native_decimals", "q_pair_info", "q_pair_info_from_pair", "q_simulate", "q_reverse_simulate", "pair_key", "target_asset"):
+            try:
+                v = getattr(n, attr)
+                if v is not None:
+                    roles_.add(v.path)
+            except AnchorMissing:
+                pass
+        try:
+            for f_ in n.pricing_candidates():
+                roles_.add(f_.path)
+        except AnchorMissing:
+            pass
+        P._role_fns = roles_
+        common._PURE_MEMO.clear()
         common.WS_MSG_ADTS.clear()
         for c in ("pair", "router", "factory"):
             try:
